@@ -17,7 +17,7 @@ CHECKS = {
     'C03': ('reference-model monitor (explicit displaced-copy conditional entropies in float64) + planted-signal ranking family through the heuristic-name dispatch',
             'Every corrected score is compared with H(Y*|X)-H(Y|X) computed from the statement; all ordered partition pairs on <=6/7 rows (hence all row orders), row-order variants of random structures, and a planted family (>20 sigma margin) that the uncorrected score demonstrably fails.',
             'Trusts the float64 model; ranking corollary sampled over seeds at n in {4000, 8000, 16384}.', '3/C03'),
-    'C04': ('process-level sanitizers on the JIT estimator: MALLOC_PERTURB_ matrix in fresh interpreters, NUMBA_BOUNDSCHECK=1, interpreted (JIT-off) pass under numpy's own bounds checks, in-process heap grooming, valgrind memcheck (thorough); bit-exact differential across executions; row model; metamorphic outside-sample insensitivity',
+    'C04': ('process-level sanitizers on the JIT estimator: MALLOC_PERTURB_ matrix in fresh interpreters, NUMBA_BOUNDSCHECK=1, interpreted (JIT-off) pass under the bounds checks of numpy itself, in-process heap grooming, valgrind memcheck (thorough); bit-exact differential across executions; row model; metamorphic outside-sample insensitivity',
             'The same case list (exhaustive small partitions x all ratios, targeted unequal strata) runs in 6 differently poisoned/bounds-checked interpreters whose exit status and float bits are compared; a model of the sampling rule fixes which rows may be read, and altering feature values outside them must not change a bit.',
             'Red-zone tools miss in-bounds wrong reads (covered by the row model). MALLOC_PERTURB_ must reach numba NRT allocations (verified: the unfixed tree crashes/differs).', '3/C04'),
     'C05': ('invariant at a hook: wrapper around core_ranking.mixed_rank_graph recomputes every emitted triplet from the frame it was given, with an independent coding and per-heuristic definitions',
